@@ -34,8 +34,8 @@ func main() {
 	kit.Main(kit.Prop{
 		ID:    "C32",
 		Level: "exploration",
-		Rule: "each case is a PRNG-drawn memory hierarchy (ROB, write-around/evict/through and write-back caches, ideal/banked/DRAM memories, 1-3 drivers) or, in every fourth batch, a translation stack (address translator -> TLB -> MMU with auto page allocation, " +
-			"ideal memory, an idle MMU cache that only takes part in the control history; 1-2 drivers with two processes) with a recording tracer on every component and a PRNG-drawn control history: " +
+		Rule: "each case is a PRNG-drawn memory hierarchy (ROB, write-around/evict/through and write-back caches, ideal/banked/DRAM memories, 1-3 drivers) or, in every fourth batch, a translation stack (address translator -> TLB -> [MMU cache ->] MMU with auto page allocation, " +
+			"ideal memory; when the MMU cache is not in the path it is idle and only takes part in the control history; 1-2 drivers with two processes) with a recording tracer on every component and a PRNG-drawn control history: " +
 			"0-3 control episodes, each started at a PRNG-chosen response count with requests in flight: hot Reset of every component (top-down, bottom-up or shuffled), Pause-all then Reset-all, Drain-all then Reset-all, or Pause-all then Enable-all; " +
 			"after each episode the hierarchy is brought to quiescence (each component is Reset once more bottom-up, one at a time, so that no transaction is left waiting for a neighbour that dropped it), the stream is judged, and traffic resumes. " +
 			"Non-trivial: at least 200 tasks were traced and, for histories with a Reset, at least one task was ended by a reset teardown; distinct by (configuration, history)",
@@ -365,6 +365,9 @@ func oneCase(c *kit.Case, p params) {
 	shape := strings.Join(kinds, ">") + ">" + cfg.Mem.Kind
 	if p.Xlat {
 		shape = "at>(tlb>mmu)+ideal"
+		if xc.MMUCacheInPath {
+			shape = "at>(tlb>mmucache>mmu)+ideal"
+		}
 	}
 	r.Distinct("stack_shapes", shape)
 	var hk []string
